@@ -1,4 +1,5 @@
 """C03 - field tables and arrays round-trip with value and type preserved."""
+from mc import alphabets as A
 from mc import lib, values
 from mc.canon import canon, fromjson, norm, short, tojson
 
@@ -10,7 +11,10 @@ RULE = ('E1: every scalar of the boundary alphabet S (every ladder boundary '
         'ordered tree shape with <= N nodes x every list/dict labelling x 11 '
         'leaf kinds; every scalar in every leaf of every tree <= 4 nodes; '
         'all 2^k list/dict chains for k <= K; depth 16/31/32 canonical '
-        'chains; key alphabet; homogeneous arrays and tables of every element '
+        'chains; every nesting depth 1..130 (thorough 200) in four list/dict '
+        'patterns with a scalar / empty container innermost (up to 32 the '
+        'encoder must accept, beyond it what it accepts must round-trip); '
+        'key alphabet; homogeneous arrays and tables of every element '
         'kind (15) for every count 0..69 and 100 127 128 255 256 257 400, '
         'all-same, cycling, and with one foreign-typed element first / '
         'middle / last; every array of <= 3 (thorough 4) elements over 31 '
@@ -50,6 +54,9 @@ def check_one(ctx, position, v):
         data = enc(value)
         ctx.calls()
     except Exception as exc:  # noqa
+        if A.nesting(value) > A.MAX_DEPTH:
+            ctx.outcome('refused-beyond-depth-32')
+            return
         ctx.outcome('encode-raised')
         ctx.violation(fp, 'encoder refused the encodable value {} at '
                       'position {}: {!r}'.format(short(v, 300), position,
